@@ -31,6 +31,11 @@ THEOREMS = [
     "TornadoModel.C01.reject_is_final",
     "TornadoModel.C01.reject400_closed",
     "TornadoModel.C01.closeSilent_closed",
+    "TornadoModel.C01.parseHexInt_none_iff",
+    "TornadoModel.C01.chunked_strict_size",
+    "TornadoModel.C01.chunked_size_line_too_long",
+    "TornadoModel.C01.chunked_strict_terminator",
+    "TornadoModel.C01.chunked_strict_last_terminator",
     "TornadoModel.C01.never_uncaught",
     "TornadoModel.C01.never_uncaught_eof",
 ]
@@ -63,7 +68,7 @@ CLAUSES = {
     "conflicting or non-numeric Content-Length": "bodyKind_cl_not_numeric, bodyKind_cl_unequal",
     "Content-Length together with Transfer-Encoding": "bodyKind_cl_te_conflict",
     "a transfer coding other than chunked": "bodyKind_te_not_chunked, bodyKind_chunked_iff",
-    "malformed chunk size or chunk terminator": "tie only: chunked decode round trip / strictness are decided by the correspondence (stepChunkSize/stepChunkCrlf/stepLastCrlf vs Spec.decodeChunks on every chunked case); reject paths end in reject400 (reject400_closed)",
+    "malformed chunk size or chunk terminator": "parseHexInt_none_iff, chunked_strict_size, chunked_size_line_too_long, chunked_strict_terminator, chunked_strict_last_terminator (one step, any buffer); chunked encode/decode round trip over all chunk lists: tie only",
     "malformed request line": "requestLine_iff, requestLine_strict",
     "missing/invalid/multiple Host": "host_missing_11, host_invalid, host_comma, host_default_10",
     "delivers nothing further, answers 400 or closes": "reject_is_final, reject400_closed, closeSilent_closed",
